@@ -326,12 +326,20 @@ func ruleGobIface(c *Ctx, rule string) {
 // copy every field.
 func ruleCopyAllFields(c *Ctx, rule string) {
 	l := c.L
-	T := l.NamedType(modPath, "Bytecode")
-	st := T.Underlying().(*types.Struct)
 	n := 0
 	for _, fn := range l.RepoFuncs(func(pp string) bool { return pp == encPath }) {
-		copied := map[int]bool{}
-		var pos token.Pos
+		// field-wise copies: stores d.f = s.f between two values of one struct layout
+		type pairKey struct {
+			d, s ssa.Value
+		}
+		type info struct {
+			st     *types.Struct
+			name   string
+			copied map[int]bool
+			pos    token.Pos
+		}
+		copies := map[pairKey]*info{}
+		var order []pairKey
 		eachInstr(fn, func(ins ssa.Instruction) {
 			s, ok := ins.(*ssa.Store)
 			if !ok {
@@ -342,7 +350,11 @@ func ruleCopyAllFields(c *Ctx, rule string) {
 				return
 			}
 			dpt, ok := dfa.X.Type().Underlying().(*types.Pointer)
-			if !ok || !types.Identical(dpt.Elem().Underlying(), st) {
+			if !ok {
+				return
+			}
+			dst, ok := dpt.Elem().Underlying().(*types.Struct)
+			if !ok {
 				return
 			}
 			u, ok := stripChange(s.Val).(*ssa.UnOp)
@@ -354,26 +366,43 @@ func ruleCopyAllFields(c *Ctx, rule string) {
 				return
 			}
 			spt, ok := sfa.X.Type().Underlying().(*types.Pointer)
-			if !ok || !types.Identical(spt.Elem().Underlying(), st) {
+			if !ok || !types.Identical(spt.Elem().Underlying(), dst) {
 				return
 			}
-			copied[dfa.Field] = true
-			pos = s.Pos()
-		})
-		if len(copied) < 2 {
-			continue
-		}
-		n++
-		var missing []string
-		for i := 0; i < st.NumFields(); i++ {
-			if !copied[i] {
-				missing = append(missing, st.Field(i).Name())
+			k := pairKey{dfa.X, sfa.X}
+			if copies[k] == nil {
+				copies[k] = &info{st: dst, name: tstr(dpt.Elem()), copied: map[int]bool{}}
+				order = append(order, k)
 			}
+			copies[k].copied[dfa.Field] = true
+			copies[k].pos = s.Pos()
+		})
+		for _, k := range order {
+			in := copies[k]
+			if len(in.copied) < 2 {
+				continue
+			}
+			n++
+			var missing []string
+			for i := 0; i < in.st.NumFields(); i++ {
+				f := in.st.Field(i)
+				if es, ok := f.Type().Underlying().(*types.Struct); ok && es.NumFields() == 0 {
+					continue // an embedded empty struct (ObjectImpl) carries nothing
+				}
+				if !in.copied[i] {
+					missing = append(missing, f.Name())
+				}
+			}
+			key := fnName(fn) + " | field-wise copy of a " + in.name
+			if kk := countKey(key); kk > 1 {
+				key += fmt.Sprintf(" #%d", kk)
+			}
+			c.Check(rule, key, l.Pos(in.pos), len(missing) == 0, "all fields copied", "a "+in.name+" is copied field by field but "+strings.Join(missing, ", ")+" is left out: the decoded value loses it (a Bytecode its file set, so errors report no positions; a builtin function its ValueEx, so `globals` no longer sees the VM)")
 		}
-		c.Check(rule, fnName(fn)+" | field-wise copy of a Bytecode", l.Pos(pos), len(missing) == 0, "all fields copied", "a Bytecode is published field by field but "+strings.Join(missing, ", ")+" is left out: the decoded program loses it (e.g. the file set, so errors report no positions)")
 	}
+	resetKeyCount()
 	if n == 0 {
-		c.Ok(rule, "no field-wise Bytecode copies", "-", "decoders fill the caller's Bytecode directly")
+		c.Ok(rule, "no field-wise struct copies", "-", "decoders copy whole struct values or fill the caller's value directly")
 	}
 }
 
